@@ -24,6 +24,8 @@ MANIFEST = dict(
     technique="Lean 4 proof over bounds-instrumented executable models + differential correspondence; sanitizer/watchdog/history-independence exploration for the unmodelled rest")
 MODULE = "IwModel.Props.C17"
 THEOREMS = [
+    "IwModel.C17.unescape_safe", "IwModel.C17.unescape_two_pass", "IwModel.C17.unescape_shape_indep", "IwModel.C17.unescape_stores_within",
+    "IwModel.C17.unescape_cstring_safe", "IwModel.C17.parse_key_safe",
 ]
 
 H = lambda b: binascii.hexlify(bytes(b)).decode() or "-"
@@ -513,8 +515,6 @@ def case_patch(r):
             op["value"] = gen_doc(r, 2)
         if (needs_from and r.random() < 0.8) or r.random() < 0.1:
             op["from"] = gen_pointer(r, doc).decode("latin1") if r.random() < 0.8 else r.choice(["", "x", "~", "/nope/none", 5, None, "/a~"])
-            if op["op"] == "swap" and op["from"] in ("", "/"):
-                op["from"] = "/a"      # swap with the document root as `from`: open finding C17-PATCH-SWAP-ROOT (witness below)
         if r.random() < 0.1:
             op = r.choice([5, "x", None, [], {"path": "/a"}, {"op": "add"}])
         ops.append(op)
@@ -712,7 +712,6 @@ WITNESS = [
     ("re-count-parse", "re %s %s" % (H(b"a{99999999999}"), H(b"aaa"))),
     ("re-count-compile", "re %s %s" % (H(b"((a{60000}){60000})"), H(b"aaa"))),
     ("re-depth", "re %s %s" % (H(b"a" * 200000), H(b"aaa"))),
-    ("patch-swap-root", "patch %s %s" % (H(b'{"a": 1}'), H(b'[{"op": "swap", "path": "/01", "from": ""}]'))),
 ]
 
 
